@@ -736,6 +736,117 @@ fn run_front(fields: &[&str], cases: &mut impl Write, out: &mut impl Write, line
     }
 }
 
+/// Build a tree through the public constructors from an S-expression.
+fn build_tree(toks: &[&str], pos: &mut usize) -> Result<HctlTreeNode, String> {
+    if toks.get(*pos) != Some(&"(") {
+        return Err("expected (".into());
+    }
+    *pos += 1;
+    let kind = toks[*pos];
+    *pos += 1;
+    let node = match kind {
+        "T" => {
+            let a = toks[*pos];
+            *pos += 1;
+            if a == "1" {
+                HctlTreeNode::mk_constant(true)
+            } else if a == "0" {
+                HctlTreeNode::mk_constant(false)
+            } else {
+                let (k, nm) = a.split_once(':').ok_or("bad atom")?;
+                let nm = unhex(nm);
+                match k {
+                    "P" => HctlTreeNode::mk_proposition(&nm),
+                    "V" => HctlTreeNode::mk_variable(&nm),
+                    "W" => HctlTreeNode::mk_wild_card(&nm),
+                    _ => return Err("bad atom kind".into()),
+                }
+            }
+        }
+        "U" => {
+            let op = match toks[*pos] {
+                "Not" => UnaryOp::Not,
+                "EX" => UnaryOp::EX,
+                "AX" => UnaryOp::AX,
+                "EF" => UnaryOp::EF,
+                "AF" => UnaryOp::AF,
+                "EG" => UnaryOp::EG,
+                "AG" => UnaryOp::AG,
+                _ => return Err("bad unary".into()),
+            };
+            *pos += 1;
+            let c = build_tree(toks, pos)?;
+            HctlTreeNode::mk_unary(c, op)
+        }
+        "B" => {
+            let op = match toks[*pos] {
+                "And" => BinaryOp::And,
+                "Or" => BinaryOp::Or,
+                "Xor" => BinaryOp::Xor,
+                "Imp" => BinaryOp::Imp,
+                "Iff" => BinaryOp::Iff,
+                "EU" => BinaryOp::EU,
+                "AU" => BinaryOp::AU,
+                "EW" => BinaryOp::EW,
+                "AW" => BinaryOp::AW,
+                _ => return Err("bad binary".into()),
+            };
+            *pos += 1;
+            let l = build_tree(toks, pos)?;
+            let r = build_tree(toks, pos)?;
+            HctlTreeNode::mk_binary(l, r, op)
+        }
+        "H" => {
+            let op = match toks[*pos] {
+                "Bind" => HybridOp::Bind,
+                "Jump" => HybridOp::Jump,
+                "Exists" => HybridOp::Exists,
+                "Forall" => HybridOp::Forall,
+                _ => return Err("bad hybrid".into()),
+            };
+            let x = unhex(toks[*pos + 1]);
+            let d = if toks[*pos + 2] == "_" { None } else { Some(unhex(toks[*pos + 2])) };
+            *pos += 3;
+            let c = build_tree(toks, pos)?;
+            HctlTreeNode::mk_hybrid(c, &x, d, op)
+        }
+        _ => return Err("bad node".into()),
+    };
+    if toks.get(*pos) != Some(&")") {
+        return Err("expected )".into());
+    }
+    *pos += 1;
+    Ok(node)
+}
+
+/// TREE id sexpr renderhex: build through the constructors, print, re-parse, compare.
+fn run_tree(fields: &[&str], cases: &mut impl Write, out: &mut impl Write) {
+    let id = fields[1];
+    writeln!(cases, "PARSE\t{id}\t1\t{}", fields[3]).unwrap();
+    let spaced = fields[2].replace('(', " ( ").replace(')', " ) ");
+    let toks: Vec<&str> = spaced.split_whitespace().collect();
+    let r = catch_unwind(AssertUnwindSafe(|| -> Result<String, String> {
+        let mut pos = 0;
+        let t = build_tree(&toks, &mut pos)?;
+        let text = t.to_string();
+        match parse_extended_formula(text.as_str()) {
+            Ok(t2) => {
+                if t2 == t {
+                    Ok(tree_s(&t))
+                } else {
+                    Err(format!("RoundTrip:{}", hex(&t2.to_string())))
+                }
+            }
+            Err(_) => Err("RoundTripRejected".into()),
+        }
+    }));
+    match r {
+        Ok(Ok(s)) => writeln!(out, "{id} OK {s}").unwrap(),
+        Ok(Err(e)) => writeln!(out, "{id} ERR {e}").unwrap(),
+        Err(e) => writeln!(out, "{id} PANIC {}", panic_msg(e)).unwrap(),
+    }
+}
+
 /// Start-up assertion: the classification table of the model agrees with Rust's `char`.
 fn check_char_tables() -> Result<(), String> {
     let alnum = [233u32, 955, 1635, 189, 1078];
@@ -797,6 +908,7 @@ fn main() {
             "TOK" | "PARSE" | "PREP" | "DUPS" | "CANON" => {
                 run_front(&fields, &mut cases, &mut out, &line)
             }
+            "TREE" => run_tree(&fields, &mut cases, &mut out),
             _ => shell::run(&fields, &mut cases, &mut out, &line),
         }
     }
